@@ -36,7 +36,7 @@ CFG = {
         "pending outbound calls < MaxInt32 for the tier order (at MaxInt32 the generated scores of adjacent tiers meet); uint64 order counter does not wrap within the window (explicit hypotheses of C15_fair_partial / C15_stamp_bound)",
         "fairness at full strength is refuted (C15_fair_refuted, known finding peerlist:fairness-after-shrink); C15_fair_partial holds under the stamp bound, which C15_stamp_bound establishes for histories without Remove; re-establishment of the bound after a Remove is not proved",
         "the heap order on (score, order) is NOT an invariant of the pinned code (C15_heap_order_refuted: swapOrder fixes stale positions); selection minimality and fairness are proved without it (heap order on the score; order only among elements stamped after the window bound)",
-        "the request theorems (C15_retry_*) take the host function as the code has it (first ':'): bracketed IPv6 host:ports all have host \"[\" (known finding c15:ipv6-host, oracle uses the bracket-aware host); they cover Get as SubChannel.BeginCall uses it, any history on the list between two attempts, and no concurrent mutation of one RequestState (a request's attempts are sequential)",
+        "the request theorems (C15_retry_*) take the host function of the code: the text before the LAST ':' (after the fix of c15:ipv6-host a bracketed IPv6 host:port \"[::1]:80\" has host \"[::1]\"; the oracle's host function is written separately and is bracket-aware); they cover Get as SubChannel.BeginCall uses it, any history on the list between two attempts, and no concurrent mutation of one RequestState (a request's attempts are sequential)",
         "C15_pending_counts_our_calls / C15_default_rank_of_connections: total pending < 2^63 (int never wraps), pending < 2^31-1 and connection counts < 2^63 for the rank order",
         "scCount / root-list removal of peers (RootPeerList.onClosedConnRemoved) belong to C16 and are not modelled"
     ]
